@@ -9,7 +9,7 @@ from . import loaders
 from .common import enc_bools, enc_bytes, enc_list
 from .driver import content, fields, mk_like
 
-MODELLED = {"minimize"}
+MODELLED = {"minimize", "minimize-around", "minimize-balanced", "minimize-collapse-brace"}
 
 
 class TestLimit(BaseException):
@@ -71,6 +71,9 @@ def enc_cfg(cfg):
 
 DESC = [
     (0, re.compile(r"Removing chunk from (\d+) to (\d+) of (\d+)$")),
+    (1, re.compile(r"Removing chunk #(\d+) & #(\d+) of (\d+) chunks of size \d+$")),
+    (2, re.compile(r"Removing chunk #(\d+)() of (\d+) chunks of size \d+$")),
+    (3, re.compile(r"Collapse empty braces()()()$")),
 ]
 
 
@@ -96,7 +99,12 @@ def parse_desc(desc):
     for tag, rx in DESC:
         m = rx.match(desc)
         if m:
-            return tag, int(m.group(1)), int(m.group(2)), int(m.group(3))
+            g = [int(x) if x else None for x in m.groups()]
+            if tag == 2:
+                g[1] = g[0]
+            if tag == 3:
+                g = [0, 0, 0]
+            return tag, g[0], g[1], g[2]
     return 9, 0, 0, 0
 
 
@@ -166,7 +174,9 @@ def _run_real(S, name, cfg, tc, decider, clock_times, max_tests, watchdog):
     return run
 
 
-def model_line(name, cfg, f, verdicts, clock_times=None):
+def model_line(name, cfg, f, verdicts, clock_times=None, kind="line"):
+    if name == "minimize-collapse-brace":
+        name = name + ":" + kind
     v = "".join("1" if x else "0" for x in verdicts) or "0"
     c = "N" if not clock_times else ",".join(str(x) for x in clock_times)
     return f"strategy {name} {enc_cfg(cfg)} {enc_bytes(f[0])} {enc_list(f[1])} {enc_bools(f[2])} {enc_bytes(f[3])} {v} {c}"
